@@ -172,6 +172,14 @@ def scenarios(rng: random.Random, tier: str) -> list[str]:
         out.append(inbound + " | start | acc | " + " | ".join(evs))
         if tier != "quick" or rng.random() < 0.5:
             out.append(nodegen.CONFIGS["out"] + " | start ok,inp | " + " | ".join(evs) + " | adv 3")
+    # every CER of the alphabet as the first message, on every configuration (0, 1, 3 applications; auth / acct roles)
+    for cfgn in ("noapp", "basic", "two", "rq"):
+        for i in range(al):
+            msg = alphabet(rng)[i]
+            if msg.startswith("CE:128"):
+                out.append(nodegen.CONFIGS[cfgn] + " | start fail | acc | rx 0 " + msg + " | rx 0 " + nodegen.dwr(81, 82) + " | tick")
+        for relay in (",acct=4294967295", ",vauth=4294967295"):
+            out.append(nodegen.CONFIGS[cfgn] + " | start fail | acc | rx 0 " + nodegen.cer("peer1.x", "", 83, 84, relay) + " | tick")
     # timeout grid: node-level CER/CEA timeouts other than the defaults, peers without overrides
     for cea_t, cer_t in ((1, 2), (2, 1), (9, 7), (3, 3)):
         cfg = (f"NODE host={nodegen.HOST};realm={nodegen.REALM};cea={cea_t};cer={cer_t};idle=60;"
